@@ -221,6 +221,18 @@ def funcs():
         for k, (c, _) in enumerate(zoom):
             assert rs2lean.free_vars(c) <= set(zp)
             defs.append(rs2lean.lean_def(f"zoom_keep_{k}", zp, "Bool", c))
+        # the writers' preconditions: `if <cond> { return Err(` in process_val, split into the conditions on the value
+        # alone and those that involve the look-ahead value
+        for tag, rel in (("wig", "bigtools/src/bbi/bigwigwrite.rs"), ("bed", "bigtools/src/bbi/bigbedwrite.rs")):
+            conds = rs2lean.early_errors(read(rel), "process_val")
+            sp = ["current_val_start", "current_val_end", "chrom_length"]
+            npar = sp + ["next_val_start", "next_val_end"]
+            single = [c for c in conds if not any(v.startswith("next_val") for v in rs2lean.free_vars(c))]
+            nxt = [c for c in conds if any(v.startswith("next_val") for v in rs2lean.free_vars(c))]
+            assert len(single) >= 1 and len(nxt) >= 1
+            assert all(rs2lean.free_vars(c) <= set(sp) for c in single) and all(rs2lean.free_vars(c) <= set(npar) for c in nxt)
+            defs.append(rs2lean.lean_def(f"{tag}_refuse_alone", sp, "Bool", rs2lean.disj(single)))
+            defs.append(rs2lean.lean_def(f"{tag}_refuse_next", npar, "Bool", rs2lean.disj(nxt)))
         body += "\n\n" + "\n\n".join(defs)
     except Exception:                               # noqa  (Unsupported, or anything the parser trips over)
         return True, False
@@ -260,7 +272,7 @@ def main():
     if old != text:
         with open(OUT, "w", encoding="utf-8") as f:
             f.write(text)
-    return failed + (["FUNCS(overlaps, range filters)"] if ffailed else []), (old is not None and old != text) or fchanged
+    return failed + (["FUNCS(overlaps, range filters, preconditions)"] if ffailed else []), (old is not None and old != text) or fchanged
 
 
 if __name__ == "__main__":
